@@ -1,6 +1,7 @@
 //! Protocol-layer properties decided by `segmc`: C02 (segmentation independence), C03 (exact
 //! decoding), C09 (arbitrary bytes), C10 (EOF classification), and the protocol half of C18.
 
+use crate::mpdref::wire::AFrame;
 use std::collections::HashSet;
 
 use rayon::prelude::*;
@@ -519,11 +520,29 @@ pub fn run_c02(tier: Tier) -> i32 {
         c02_check_stream(&huge, &sets, &[], &mut acc_huge);
         acc_huge.nontrivial += 1;
     }
-    let mut acc = acc.merge(acc_long).merge(acc_multi).merge(acc_huge);
+    // thousands of short lines arriving in ONE read (round 6: a per-call budget of lines in the parser): a
+    // 40 KB value first, so that both connections' buffers have grown and a single read can carry them all
+    let many: &[usize] = if thorough { &[1023, 1024, 1025, 2048, 2049, 4097, 6000, 20000, 70000] } else { &[1025, 6000] };
+    let acc_many = many
+        .par_iter()
+        .map(|&count| {
+            let mut acc = Acc::default();
+            let grow = AFrame { fields: vec![("a".into(), "g".repeat(40_000))], binary: None };
+            let lines = AFrame { fields: (0..count).map(|i| ("a".to_string(), (i % 10).to_string())).collect(), binary: None };
+            let ws = vec![Wire::Single(grow), Wire::Single(lines.clone()), Wire::Single(AFrame::new(&[("a", "after")])), Wire::List(vec![lines, AFrame::new(&[("b", "x")])])];
+            let (s, _) = encode_items(&ws, BinPos::Last);
+            let n = s.len();
+            let sets: Vec<Vec<usize>> = vec![vec![], chunked(n, 1 << 20), chunked(n, 65536), chunked(n, 16384), chunked(n, 8192), chunked(n, 4096), chunked(n, 1460), vec![40_006], vec![40_006, 40_006 + 5 * 1024]];
+            c02_check_stream(&s, &sets, &[], &mut acc);
+            acc.nontrivial += 1;
+            acc
+        })
+        .reduce(Acc::default, Acc::merge);
+    let mut acc = acc.merge(acc_long).merge(acc_multi).merge(acc_huge).merge(acc_many);
     acc.samples.push(json!({"well_formed_streams": wf, "truncated_and_corrupted_streams": streams.len() - wf, "long_streams": longs.len()}));
     let cov = proto_coverage(
         &acc,
-        "byte streams = well-formed grammar streams, every truncation and single-byte substitution/deletion/insertion of 8 two-response streams, long responses with boundaries at 4096/8192/16384 +-1 and binary payloads of 4000..8300 bytes, and every sequence of <=2/3 large binary components (10..17000 bytes) as separate responses and as one list, and one text line of 1.2 MB between ordinary responses (8 segmentations); x every segmentation of the stated sets x {blocking, async} x Pending answers; each stream is distinct and counts as non-trivial (all have >= 2 segmentations)",
+        "byte streams = well-formed grammar streams, every truncation and single-byte substitution/deletion/insertion of 8 two-response streams, long responses with boundaries at 4096/8192/16384 +-1 and binary payloads of 4000..8300 bytes, and every sequence of <=2/3 large binary components (10..17000 bytes) as separate responses and as one list, and one text line of 1.2 MB between ordinary responses (8 segmentations), and responses of 1025 / 6000 (thorough: 1023..70000) five-byte lines behind a 40 KB value, in one read and in 1460..2^20-byte reads; x every segmentation of the stated sets x {blocking, async} x Pending answers; each stream is distinct and counts as non-trivial (all have >= 2 segmentations)",
         json!({"all_compositions_upto_len": all_upto, "upto_2_cuts_upto_len": two_upto, "upto_3_cuts_upto_len": three_upto, "pending_masks": pend, "long_streams": "every (quick: every third) single cut, +-3 around every structural boundary, pairs near boundaries, chunk sizes 1,2,3,7,4095,4096,4097"}),
     );
     finish(&ctx, cov, acc.viol)
@@ -632,6 +651,9 @@ pub fn run_c10(tier: Tier) -> i32 {
                     }
                 }
             }
+            // ... and at a fixed stride through the whole stream (most of it is payload), so that a cut
+            // deep inside every large component is tried as well
+            positions.extend((0..=stream.len()).step_by(997));
             positions.sort();
             positions.dedup();
             for &p in &positions {
@@ -716,7 +738,7 @@ pub fn run_c10(tier: Tier) -> i32 {
     let acc = acc.merge(gacc);
     let cov = proto_coverage(
         &acc,
-        "every stream of the bounded response grammar x every cut position 0..=n (stream truncated there, then EOF) x {one read, one byte at a time, every single cut of the surviving prefix} x {blocking, async, async with the receive() future dropped at the 1st/2nd/3rd read and called again}; sequences of large binary components cut around every component boundary; plus every proper prefix of two greetings under all segmentations; non-trivial = (stream, cut position) pairs",
+        "every stream of the bounded response grammar x every cut position 0..=n (stream truncated there, then EOF) x {one read, one byte at a time, every single cut of the surviving prefix} x {blocking, async, async with the receive() future dropped at the 1st/2nd/3rd read and called again}; sequences of large binary components (with fields in front, and bare) cut around every component boundary and every 997 bytes; plus every proper prefix of two greetings under all segmentations; non-trivial = (stream, cut position) pairs",
         json!({"cut_positions": "all", "long_streams": "cuts within +-2 of structural boundaries (thorough tier)"}),
     );
     finish(&ctx, cov, acc.viol)
